@@ -5,7 +5,6 @@ package hmods
 
 import (
 	"context"
-	"strings"
 	"crypto/tls"
 	"encoding/json"
 	"errors"
@@ -14,6 +13,7 @@ import (
 	"net"
 	"os"
 	"reflect"
+	"strings"
 	"sync"
 	"sync/atomic"
 	"time"
